@@ -83,7 +83,13 @@ fn names(max_len: usize) -> Vec<String> {
     out
 }
 
+/// `front` may carry the suffix "+maint": the same world, but over capacity (capacity 1 per directory, three
+/// entries each), with stale debris in every .kismet_temp and the maintenance trigger about to fire, so that a
+/// call that reaches maintenance before rejecting its name does change something.
 fn build_world(sc: &Scratch, front: &str) -> (StackCfg, ops::Dirs, PathBuf) {
+    let maintain = front.ends_with("+maint");
+    let front = front.trim_end_matches("+maint");
+    let cap = |n: usize| if maintain { n } else { 1usize << 40 };
     let outer = sc.path("outer");
     let now = run::base_time_ns() as i128;
     let old = now - 86_400_000_000_000;
@@ -98,10 +104,10 @@ fn build_world(sc: &Scratch, front: &str) -> (StackCfg, ops::Dirs, PathBuf) {
     };
     shim::passthrough(|| std::fs::create_dir_all(&dirs.app_tmp).unwrap());
     let cfg = match front {
-        "plain" => StackCfg { writer: Some((Front::Plain, 1 << 40)), readers: vec![], checker: ops::Checker::None, auto_sync: true },
-        "sharded" => StackCfg { writer: Some((Front::Sharded(3), 1 << 40)), readers: vec![], checker: ops::Checker::None, auto_sync: true },
+        "plain" => StackCfg { writer: Some((Front::Plain, cap(1))), readers: vec![], checker: ops::Checker::None, auto_sync: true },
+        "sharded" => StackCfg { writer: Some((Front::Sharded(3), cap(3))), readers: vec![], checker: ops::Checker::None, auto_sync: true },
         _ => StackCfg {
-            writer: Some((Front::Plain, 1 << 40)),
+            writer: Some((Front::Plain, cap(1))),
             readers: vec![Front::Plain, Front::Sharded(3)],
             checker: ops::Checker::None,
             auto_sync: true,
@@ -135,6 +141,17 @@ fn build_world(sc: &Scratch, front: &str) -> (StackCfg, ops::Dirs, PathBuf) {
         for s in 0..3 {
             let d = dirs.reads[1].join(ops::shard_dir_name(s));
             world::plant(&d.join("valid"), &Val::one(2).bytes(), 0o444, entry_times.0, entry_times.1);
+        }
+    }
+    if maintain {
+        let mut homes = vec![cache.clone()];
+        if front == "sharded" {
+            homes.extend((0..3).map(|s| cache.join(ops::shard_dir_name(s))));
+        }
+        for d in homes {
+            world::plant(&d.join("valid2"), &Val::one(3).bytes(), 0o444, entry_times.0 - 600_000_000_000, entry_times.1 - 600_000_000_000);
+            world::plant(&d.join("valid3"), &Val::one(4).bytes(), 0o444, entry_times.1 - 300_000_000_000 + 5_000_000_000, entry_times.1 - 300_000_000_000);
+            world::plant(&d.join(".kismet_temp/stale"), b"debris", 0o600, old, old);
         }
     }
     (cfg, dirs, outer)
@@ -213,13 +230,41 @@ pub fn run_case(name: &str, opname: &str, front: &str, rep: &mut Report) -> Vec<
     let cache = ops::build(&cfg, &dirs, None);
     let op = make_op(opname, K::new(name, 1, 2));
     let before = world::snapshot(&sc.root);
+    let maintain = front.ends_with("+maint");
     let (out, trace) = run::as_participant(0, 0, || {
-        run::trigger_never();
+        if maintain {
+            run::trigger_fire_next(u64::MAX);
+        } else {
+            run::trigger_never();
+        }
         ops::exec(&cache, &dirs, &op, &Default::default())
     });
     rep.transitions += trace.len() as u64;
     let after = world::snapshot(&sc.root);
     let mut bad = Vec::new();
+    if maintain {
+        // an accepted name's maintenance legitimately evicts and reclaims; a rejected name modifies nothing
+        let res = match out {
+            Ok(o) => o.res,
+            Err(p) => Res::Panic(p),
+        };
+        if let Res::Panic(p) = &res {
+            bad.push(("panic".into(), format!("panicked: {}", p)));
+        }
+        // (the statement's own set: empty, or first byte '.', '/' or '\\'; a name refused later by the operating
+        // system, NUL or over-long, has been accepted by the cache and its maintenance is ordinary business)
+        let reserved = name.is_empty() || matches!(name.as_bytes()[0], b'.' | b'/' | b'\\');
+        if reserved && !matches!(&res, Res::Err(ErrorKind::InvalidInput, _, _)) {
+            bad.push(("reserved-accepted".into(), format!("reserved name was not rejected with InvalidInput: {}", res.label())));
+        }
+        if reserved {
+            let delta: Vec<(String, String)> = world::diff(&before, &after, false).into_iter().filter(|d| !d.1.starts_with("app_tmp")).collect();
+            if !delta.is_empty() {
+                bad.push(("rejected-modified".into(), format!("the name was rejected (InvalidInput) but the call still modified: {:?}", delta)));
+            }
+        }
+        return bad;
+    }
     let res = match out {
         Ok(o) => o.res,
         Err(p) => Res::Panic(p),
@@ -428,7 +473,9 @@ pub fn run(tier: Tier, shard: Shard, rep: &mut Report) {
          (.. components, trailing /, nested existing dirs, 255/256/5000-byte names) x 8 operations x {{plain, sharded, \
          stacked}} front-ends, in a world of sentinel files around and inside the cache directory; oracle = \
          InvalidInput+unchanged world for reserved names, else error+unchanged or effects confined to the single \
-         direct-child entry, plus a monitor on every mutating call's path. Plus, under concurrency (all schedules with <= 2 preemptions of a maintaining writer racing with a deleter or another \
+         direct-child entry, plus a monitor on every mutating call's path; every name of length <= 2 (thorough 3) and the edge names \
+         again in a world where maintenance is due (over capacity, stale debris in .kismet_temp, trigger firing): a reserved name (empty, or starting with '.', '/', '\\') is \
+         rejected with InvalidInput and leaves that world unchanged too. Plus, under concurrency (all schedules with <= 2 preemptions of a maintaining writer racing with a deleter or another \
          writer, sentinel files named like the entries one directory up): every mutating call lands inside the cache's own \
          directories. Non-trivial = accepted-by-first-byte name containing a separator, NUL, '..' or of extreme length.",
         max_len,
@@ -451,6 +498,19 @@ pub fn run(tier: Tier, shard: Shard, rep: &mut Report) {
                 if no % 30011 == 0 {
                     rep.sample(case_json(name, op, front));
                 }
+            }
+        }
+    }
+    // the rejected-name clause again in a world where maintenance is due (over capacity, stale debris, trigger firing)
+    for name in &names(if tier == Tier::Quick { 2 } else { 3 }) {
+        for op in OPS.iter() {
+            for front in FRONTS.iter() {
+                no += 1;
+                if !shard.mine(no) {
+                    continue;
+                }
+                rep.count("maintenance_due_cases", 1);
+                record(name, op, &format!("{}+maint", front), rep);
             }
         }
     }
